@@ -400,6 +400,37 @@ class STensor:
     def __neg__(self) -> Any:
         return dispatch("neg", torch.neg, (self,), {})
 
+    def __eq__(self, o: Any) -> Any:  # type: ignore[override]  # element-wise, like torch.Tensor (the engine itself compares tensors with `is`)
+        if o is None or isinstance(o, str):
+            return False
+        return dispatch("eq", torch.eq, (self, o), {})
+
+    def __ne__(self, o: Any) -> Any:  # type: ignore[override]
+        if o is None or isinstance(o, str):
+            return True
+        return dispatch("ne", torch.ne, (self, o), {})
+
+    __hash__ = object.__hash__
+
+    def register_hook(self, fn: Any) -> Any:
+        """torch.Tensor.register_hook: fn sees the TOTAL gradient of this tensor once and may replace it.  The tape gets an identity
+        node in front of the tensor's producer whose vjp calls the hook."""
+        if not self.requires_grad:
+            raise RuntimeError("cannot register a hook on a tensor that doesn't require gradient")
+        inner = self._snapshot()
+
+        def vjp(g: LC, _self: "STensor" = self, _fn: Any = fn) -> List[Optional[LC]]:
+            r = _fn(STensor(g, _self.shape, _self.meta))
+            return [r.lc if isinstance(r, STensor) else g]
+
+        self.node = Node([inner], vjp, "hook")
+
+        class _Handle:
+            def remove(self) -> None:  # removal after use is all the library could need; the tape of a finished run is not replayed
+                pass
+
+        return _Handle()
+
     def __gt__(self, o: Any) -> Any:
         return dispatch("gt", torch.gt, (self, o), {})
 
@@ -862,6 +893,14 @@ def _h_dropout(name: str, func: Any, args: Tuple[Any, ...], kw: Dict[str, Any]) 
     meta = _run_meta(F.dropout, (x, d["p"], d["training"], False), {})
     if not d["training"]:
         return x  # F.dropout in eval mode returns its input
+    if isinstance(x, STensor) and x.const is None and len(x.lc) == 1 and not z3.is_true(z3.simplify(x.lc[0][0] == 1)) \
+            and not z3.is_true(z3.simplify(x.lc[0][0] == 0)):
+        # with the mask of this call dropout is a linear map: dropout(c * u) = c * dropout(u).  A library that scales its input before the
+        # dropout (one fused custom-gradient step) then unifies with one that scales the result.  (value and gradient: c * D(x / c))
+        c0 = SReal(x.lc[0][0])
+        u = _scaled(x, c0, x.meta, inverse=True)
+        du = opaque("dropout", [u], {"p": d["p"], "rng": "same-generator-state"}, x.shape, meta)
+        return _scaled(du, c0, meta)
     return opaque("dropout", [x], {"p": d["p"], "rng": "same-generator-state"}, x.shape, meta)
 
 
@@ -935,6 +974,18 @@ def _h_mse_loss(name: str, func: Any, args: Tuple[Any, ...], kw: Dict[str, Any])
     red = d["reduction"]
     meta = _run_meta(F.mse_loss, (x, t), {"reduction": red})
     st = {k: d[k] for k in ("size_average", "reduce")}
+    if (isinstance(x, STensor) and isinstance(t, STensor) and x.meta.is_floating_point() and t.meta.is_floating_point()
+            and st["size_average"] is None and st["reduce"] is None):
+        # by its definition, through the engine's own ops (so that a library spelling (x - t).pow(2).sum() unifies with it and the
+        # gradient 2 (x - t) g comes out of the tape, upstream gradient included)
+        dlt = dispatch("sub", torch.sub, (x, t), {})
+        sq = dispatch("pow", torch.pow, (dlt, 2), {})
+        if red == "none":
+            return sq
+        tot = dispatch("sum", torch.sum, (sq,), {})
+        if red == "sum":
+            return STensor(tot.lc, (), meta, node=tot.node, const=tot.const)
+        return _scaled(STensor(tot.lc, (), meta, node=tot.node, const=tot.const), _sreal(broadcast_shapes(x.shape, t.shape).numel()), meta, inverse=True)
     if red == "none":
         return opaque("mse_none", [x, t], st, broadcast_shapes(x.shape, t.shape), meta)
     s = opaque("mse_sum", [x, t], st, (), meta)
@@ -1461,7 +1512,7 @@ class Session:
                     return back
 
                 first = next(o for o in outs_t if isinstance(o, STensor))
-                hub = STensor(LC(()), (), first.meta, node=Node(parents, hub_vjp, cls.__name__))
+                hub = STensor(LC(()), (), torch.empty((), dtype=first.meta.dtype, device="meta"), node=Node(parents, hub_vjp, cls.__name__))
                 hub.requires_grad = True
                 wrapped: List[Any] = []
                 for k, o in enumerate(outs_t):
